@@ -7,7 +7,7 @@ RULE = ("every program TLC enumerates within the bounds (processes interrupting 
         "larger programs validated by TLC. non-trivial as in C01")
 KINDS = {"sleep": 5, "spawn": 2.5, "interrupt": 4, "yield": 4, "event": 1, "succeed": 1, "raise": 0.7, "return": 0.5}
 # victims waiting on conditions / shared events / resources-free joins: interrupts meeting the other event kinds
-MIXED = {"sleep": 4, "timeout": 2, "spawn": 2.5, "interrupt": 4, "yield": 5, "event": 2, "succeed": 2, "fail": 0.7, "cond": 3,
+MIXED = {"sleep": 4, "timeout": 2, "spawn": 2.5, "interrupt": 4, "yield": 5, "event": 2, "succeed": 2, "fail": 0.7, "cond": 2, "condnoprobe": 3,
          "raise": 0.5, "return": 0.5}
 
 
@@ -17,14 +17,14 @@ def run(ctx, replay=None):
     if ctx.quick:
         kernlib.mc_replay(ctx, "KernelMC_c04.cfg", {"MaxEv = 9": "MaxEv = 7"}, label="KernelMC/c04 3x2 ev7")
         kernlib.gen_validate(ctx, 1500, KINDS)
-        kernlib.gen_validate(ctx, 1500, MIXED, label="generated-interrupts-and-conditions")
+        kernlib.gen_validate(ctx, 2500, MIXED, label="generated-interrupts-and-conditions", orphan_finding="F19b")
     else:
         kernlib.mc_replay(ctx, "KernelMC_c04.cfg", label="KernelMC/c04 3x2")
         kernlib.mc_replay(ctx, "KernelMC_c04.cfg", {"MaxProc = 3": "MaxProc = 2", "MaxOps = 2": "MaxOps = 3", "MaxEv = 9": "MaxEv = 8"},
                           label="KernelMC/c04 2x3")
         kernlib.gen_validate(ctx, 20000, KINDS)
         kernlib.gen_validate(ctx, 5000, KINDS, max_procs=6, max_ops=8, max_events=40, label="generated-large")
-        kernlib.gen_validate(ctx, 20000, MIXED, label="generated-interrupts-and-conditions")
+        kernlib.gen_validate(ctx, 25000, MIXED, label="generated-interrupts-and-conditions", orphan_finding="F19b")
     return ctx.finish(RULE)
 
 
